@@ -30,8 +30,8 @@ CLAIMS = {
  "C14": dict(engine="T", design="§3 C14", technique="deterministic simulation: real caller threads under a seeded baton scheduler (sys.settrace line events, heap calls and simulated locks as pre-emption points), simulated heap, injected GC; seeded search over schedules",
    text="Seeded exploration of schedules: 2-4 (thorough up to 16) simulated caller threads issue evaluate / evaluate_cffi / tensor_method calls over shared and distinct problems, cached and never-seen, on both back ends, while the scheduler pre-empts at line events of tensora and cffi's recompiler, inside running kernels at their heap calls and at simulated-lock operations, and injects collections; park sweeps enumerate every shared-state write of one thread as the parking position, and generation-race sweeps park a thread before each access to module-level generator state that a solo generation was seen to mutate while another thread generates a different kernel. Every concurrent call must return bit for bit what the same call returned alone (or raise the same exception type); no other exception, no deadlock on simulated locks, no crash, heap invariants, every block a call's kernel allocated ends up in that call's output and nobody else's, nothing live after the results are dropped. Every failing schedule is recorded as (thread, thread-local step) -> decision and replays exactly.",
    note="Two kernels never execute machine code truly in parallel (a kernel body between two heap calls is an atomic step); locks created dynamically by third-party code stay real (a stall is counted inconclusive, never a violation); files outside the trace allow-list run atomically."),
- "C15": dict(engine="P", design="§3 C15", technique="deterministic simulation of the process environment: fresh interpreters with seeded PYTHONHASHSEED executing seeded request histories (library and CLI entry points, cache clears, LRU eviction floods) compared request by request with a canonical baseline interpreter",
-   text="Seeded exploration of histories x hash seeds x entry points: per run a baseline interpreter (hash seed 0, every distinct request once) and a variant interpreter (seeded hash seed; shuffled, repeated requests through generate_code, the CLI with permuted -f / omitted dense formats / stdout or -o, tensor_method with shuffled formats dicts, the private cache entry with formats in another order, evaluate warm / after cache_clear / after an eviction flood; pools contain near-duplicate problems that must not be conflated: other tensor or index names, one other mode ordering, a literal spelled as the other numeric type). Equal canonical request key => equal text or raw result digest; CLI = library; two requests that receive the identical TensorMethod object must be the same problem (names, index names, every mode and mode ordering, format order).",
+ "C15": dict(engine="P+G", design="§3 C15", technique="deterministic simulation of the process environment: fresh interpreters with seeded PYTHONHASHSEED executing seeded request histories (library and CLI entry points, cache clears, LRU eviction floods) compared request by request with a canonical baseline interpreter; plus 16 long generation histories (8 hash seeds) cross-compared request by request (engine G)",
+   text="Seeded exploration of histories x hash seeds x entry points: per run a baseline interpreter (hash seed 0, every distinct request once) and a variant interpreter (seeded hash seed; shuffled, repeated requests through generate_code, the CLI with permuted -f / omitted dense formats / stdout or -o, tensor_method with shuffled formats dicts, the private cache entry with formats in another order, evaluate warm / after cache_clear / after an eviction flood; pools contain near-duplicate problems that must not be conflated: other tensor or index names, one other mode ordering, a literal spelled as the other numeric type). Engine G: every worker interpreter is one long history of code-generation requests drawn from a universe of ~1160 related requests (catalogue and seeded problems with operator / structure / literal / rename twins x kinds x language); the same request must have the same outcome at every position of every history in every interpreter (tens of thousands of observations per quick batch). Equal canonical request key => equal text or raw result digest; CLI = library; two requests that receive the identical TensorMethod object must be the same problem (names, index names, every mode and mode ordering, format order).",
    note="Refused requests are compared by outcome class, not by message text; canonical request keys are computed by the generator from its own expression tree, not by tensora; the pair of interpreters per run costs ~2-7 s, so far fewer runs per hour than the in-process engines."),
 }
 checks = []
@@ -58,6 +58,7 @@ m = {
  "engines": [
   {"name": "K", "path": "tsim/engines/kernel.py", "serves_properties": ["C02", "C04", "C05"], "kind_free_text": "one problem's three kernels on the simulated heap, garbage twins"},
   {"name": "S", "path": "tsim/engines/session.py", "serves_properties": ["C13", "C02"], "kind_free_text": "histories of Python API operations, simulated heap + injected GC"},
+  {"name": "G", "path": "tsim/engines/genhist.py", "serves_properties": ["C15"], "kind_free_text": "long code-generation histories in 16 interpreters with 8 hash seeds, cross-compared per request"},
   {"name": "T", "path": "tsim/engines/threads.py", "serves_properties": ["C14"], "kind_free_text": "N caller threads under the baton scheduler (tsim/sched.py), simulated locks, heap, GC"},
   {"name": "P", "path": "tsim/engines/process.py", "serves_properties": ["C15"], "kind_free_text": "fresh interpreter per history with its own PYTHONHASHSEED (tsim/pchild.py)"},
  ],
